@@ -218,8 +218,9 @@ def monitor_c06(suite) -> tuple[list, int]:
         bad = unresolved_cycles(g)
         d7 = nonuniform_graph(g)
         fid = "D7-reentrant-paths" if d7 else None
-        if res == "AssertionError":
-            vio.append({"law": "cycle check fails with an internal error", "graph": g, "finding": fid})
+        if res in ("AssertionError", "hang"):
+            vio.append({"law": "cycle check fails with an internal error" if res == "AssertionError" else "cycle check does not terminate",
+                        "graph": g, "finding": fid})
             continue
         if (res == "cycle") != bool(bad):
             vio.append({"law": "rejected exactly when an unresolved cycle exists", "graph": g, "verdict": res, "unresolved_cycles": bad, "finding": fid})
